@@ -250,6 +250,8 @@ func (b *Built) build(s *Spec) (res error) {
 		return &UWrapAsSelf{S(0), c, &UWrapAsSelf{"from As method", c, nil}}
 	case "newfwerr":
 		return errors.Newf("lit "+esc(S(0))+" e=%v: %w", xs[0], c)
+	case "ukeymarker":
+		return &UWrapKeyMarker{S(0), c}
 	case "uhinter":
 		return &UWrapHinter{S(0), S(1), c}
 
